@@ -15,6 +15,10 @@ Case lines (integers in decimal, a string is a length-prefixed list of signed ch
   stoi|stol|stoll|stoul|stoull[_n] <base> <str>      value, *pos                         (ref: std::sto*, na when it throws)
   strto_integer <ty> <base> <str>           detail::strto_integer<T>: error member, end, value  (ref: glibc + errno for 64-bit T; spec for all)
   atoi|atol|atoll <str>                     value                                        (ref: glibc strtol when representable)
+  idiv <ty> <x> <y>                         etl::idiv<T>: quot, rem | ub                 (ref: 128-bit truncating division; spec: Z.quot / Z.rem)
+  to_chars_d <ty> <len> <value> | from_chars_d <ty> <str> | to_integer_d <ty> <str> | stoi_d..stoull_d <str>
+                                            the calls that leave out every defaulted argument (base 10, default
+                                            options; sto*: name(str) and name(str, &pos))
 The suffix _n = the call passes a null end pointer / pos (only the value is observed).  Bases
 outside {0, 2..36} (1, 37, -1, ...) are generated too: impl and model must agree ("no conversion"),
 reference and spec are na.  The suffix _ovf marks from_chars inputs that the generator's own
@@ -174,6 +178,28 @@ def parse_inputs(ty, base, rng, quick):
         out.append(codes(tl))
         out.append(codes("1" + tl))
         out.append(codes("-1" + tl))
+    # embedded NUL (the string_view / [first,last) APIs; filtered out for the C-string functions), long runs of
+    # leading zeros (the overflow checker must not count digits) and digit strings far beyond 64 bits (the
+    # unchecked second pass of strto_integer wraps around many times)
+    one = DIG[1]
+    top = DIG[base - 1]
+    for sg in ("", "-"):
+        out.append(codes(sg + "12\x00" + "34"))
+        out.append(codes(sg + "\x00" + "12"))
+        out.append(codes(sg + "0" * 70 + text(hi, base)))
+        out.append(codes(sg + "0" * 33 + text(hi + 1, base) + "z"))
+        out.append(codes(" " + sg + "0" * 25 + top))
+        out.append(codes(sg + one + "0" * (rng.randint(65, 90))))
+        out.append(codes(sg + top * rng.randint(40, 100) + " "))
+        out.append(codes(sg + text(rng.randint(1 << 100, 1 << 200), base) + "."))
+    # the same characters with the high bit set (negative codes of plain char): never digits, signs, white space or x
+    for ch in "0179azAZfF-+ \txX":
+        hi_ch = chr(ord(ch) | 0x80)
+        out.append(codes(hi_ch))
+        out.append(codes(hi_ch + "1"))
+        out.append(codes("1" + hi_ch + "1"))
+        out.append(codes("0" + hi_ch + "1"))
+        out.append(codes(" -" + hi_ch))
     out.append(codes("\x01" + "12"))
     out.append(codes("\x0e" + "12"))     # 14 is not white space
     out.append(codes("\x1f" + "12"))
@@ -364,6 +390,52 @@ def gen(tier, rng):
             if 0 in cs:
                 continue
             out.append(f"{name} {enc(cs)}")
+    # ---- etl::idiv directly: every sign combination, the limits, min / -1, division by zero
+    for ty in TYPES:
+        lo, hi = lim(ty)
+        xs = {lo, lo + 1, lo // 2, -37, -36, -10, -7, -1, 0, 1, 7, 10, 35, 36, 37, hi // 2, hi - 1, hi}
+        ys = {lo, lo + 1, -37, -36, -10, -3, -2, -1, 0, 1, 2, 3, 10, 36, 37, hi - 1, hi}
+        for _ in range(4 if quick else 40):
+            xs.add(rng.randint(lo, hi))
+            ys.add(rng.randint(lo, hi))
+            ys.add(rng.randint(-100, 100))
+        for x in sorted(xs):
+            for y in sorted(ys):
+                if lo <= x <= hi and lo <= y <= hi:
+                    out.append(f"idiv {ty} {x} {y}")
+    # ---- the calls without the defaulted arguments (base 10, default to_integer options, sto*(str) / sto*(str, &pos))
+    for ty in TYPES:
+        lo, hi = lim(ty)
+        for v in boundary_values(ty, [10], rng, 3 if quick else 40):
+            n = len(text(v, 10))
+            for ln in sorted({0, max(0, n - 1), n, n + 1}):
+                out.append(f"to_chars_d {ty} {ln} {v}")
+        for cs in parse_inputs(ty, 10, rng, True):
+            if from_chars_region(ty, 10, cs) == "" and rng.random() < (.5 if quick else 1):
+                out.append(f"from_chars_d {ty} {enc(cs)}")
+            if rng.random() < (.5 if quick else 1):
+                out.append(f"to_integer_d {ty} {enc(cs)}")
+    for name, ty in fam[4:]:
+        for cs in strto_inputs(ty, 10):
+            if rng.random() < (.5 if quick else 1):
+                out.append(f"{name}_d {enc(cs)}")
+    # ---- bases outside the documented domain (model tie only, reference / spec na): the conversions
+    #      static_cast<Int>(base) of from_integer / from_chars, base 0 (division by zero in idiv and in the
+    #      checker's constructor), base 1 (from_integer fills the buffer), negative bases, digits > 'z'
+    odd_bases = [0, 1, 37, 64, 100, -1, -2, -10, -36, 127, 128, 255, 256, 258, 266, 65546, 65536 + 36, -2147483648, 2147483647]
+    for ty in TYPES:
+        lo, hi = lim(ty)
+        for b in odd_bases:
+            for v in sorted({lo, -37, -1, 0, 1, 9, 37, hi} | {rng.randint(lo, hi)}):
+                if lo <= v <= hi:
+                    for ln in (0, 1, 3, 6):
+                        out.append(f"to_chars_buf {ty} {b} {ln} {v}")
+            for body in ("", "0", "1", "12", "-12", "zz", "Z9", "-1", "+1", " 1", "99999999999999999999", "-99999999999999999999"):
+                out.append(f"from_chars {ty} {b} {enc(codes(body))}")
+                tb = b if lo <= b <= hi else None     # to_integer takes the base in the type itself
+                if tb is not None:
+                    out.append(f"to_integer {ty} {rng.randrange(2)} {rng.randrange(2)} {tb} {enc(codes(body))}")
+                    out.append(f"to_integer_nc {ty} {rng.randrange(2)} {rng.randrange(2)} {tb} {enc(codes(body))}")
     return out
 
 
